@@ -7,6 +7,7 @@ import (
 	"sort"
 	"strconv"
 	"strings"
+	"sync"
 	"time"
 
 	corev1 "k8s.io/api/core/v1"
@@ -17,6 +18,7 @@ import (
 	"sigs.k8s.io/controller-runtime/pkg/client"
 
 	v1 "sigs.k8s.io/karpenter/pkg/apis/v1"
+	"sigs.k8s.io/karpenter/pkg/cloudprovider"
 	"sigs.k8s.io/karpenter/pkg/controllers/disruption"
 	kevents "sigs.k8s.io/karpenter/pkg/events"
 	provsched "sigs.k8s.io/karpenter/pkg/controllers/provisioning/scheduling"
@@ -37,6 +39,14 @@ func setup(in *RunIn) (*world.World, context.Context, error) {
 	o := *options.FromContext(w.Ctx)
 	o.FeatureGates.SpotToSpotConsolidation = in.SpotToSpot
 	ctx := options.ToContext(w.Ctx, &o)
+	// per-NodePool price tables: the provider answers GetInstanceTypes(nodePool) with that NodePool's own objects
+	for _, t := range in.Tables {
+		var its []*cloudprovider.InstanceType
+		for _, it := range t.ITs {
+			its = append(its, world.BuildIT(it))
+		}
+		w.CP.InstanceTypesForNodePool[t.Pool] = its
+	}
 	// NodePool disruption settings
 	for _, pe := range in.Pools {
 		np := &v1.NodePool{}
@@ -302,7 +312,7 @@ func churnPodExts(in *RunIn) map[string]PodExt {
 func applyChurn(ctx context.Context, w *world.World, in *RunIn) error {
 	exts := churnPodExts(in)
 	for i, e := range in.Churn.events() {
-		if err := applyChurn1(ctx, w, &e, exts, 9000+i); err != nil {
+		if err := applyChurn1(ctx, w, in, &e, exts, 9000+i); err != nil {
 			return err
 		}
 	}
@@ -329,7 +339,7 @@ func churnPod(w *world.World, ch *Churn, node string, exts map[string]PodExt, se
 	return p
 }
 
-func applyChurn1(ctx context.Context, w *world.World, ch *Churn, exts map[string]PodExt, seq int) error {
+func applyChurn1(ctx context.Context, w *world.World, in *RunIn, ch *Churn, exts map[string]PodExt, seq int) error {
 	switch ch.Kind {
 	case "pod":
 		return w.Client.Create(ctx, churnPod(w, ch, "", exts, seq))
@@ -358,6 +368,26 @@ func applyChurn1(ctx context.Context, w *world.World, ch *Churn, exts map[string
 				}
 			}
 			w.ITs[ch.IT] = b
+		}
+		// ... in every NodePool's table
+		for _, t := range in.Tables {
+			for _, it := range t.ITs {
+				if it.Name != ch.IT {
+					continue
+				}
+				c := it
+				c.Offerings = append([]world.Offering{}, it.Offerings...)
+				for i := range c.Offerings {
+					c.Offerings[i].Available = false
+				}
+				b := world.BuildIT(c)
+				l := w.CP.InstanceTypesForNodePool[t.Pool]
+				for i := range l {
+					if l[i].Name == ch.IT {
+						l[i] = b
+					}
+				}
+			}
 		}
 		return nil
 	case "delnode":
@@ -473,11 +503,36 @@ wait:
 	return out, r.cmds, rec, waited, nil
 }
 
+// capMu guards scheduling.MaxInstanceTypes, the package variable that holds the launch cap: a run that sets its own cap
+// holds the write lock for its whole duration (every world, simulation and twin run of the case sees the same cap), all
+// other runs hold the read lock.
+var capMu sync.RWMutex
+
+// withCap runs f under the input's launch cap.
+func withCap(in *RunIn, f func() (any, error)) (any, error) {
+	if in.MaxITs <= 0 {
+		capMu.RLock()
+		defer capMu.RUnlock()
+		return f()
+	}
+	capMu.Lock()
+	defer capMu.Unlock()
+	old := provsched.MaxInstanceTypes
+	provsched.MaxInstanceTypes = in.MaxITs
+	defer func() { provsched.MaxInstanceTypes = old }()
+	return f()
+}
+
 func implRun(raw json.RawMessage) (any, error) {
 	var in RunIn
 	if err := json.Unmarshal(raw, &in); err != nil {
 		return nil, err
 	}
+	return withCap(&in, func() (any, error) { return implRun1(&in) })
+}
+
+func implRun1(inp *RunIn) (any, error) {
+	in := *inp
 	out, cmds, rec, _, err := runOnce(&in, true)
 	if err != nil {
 		return nil, err
